@@ -292,6 +292,9 @@ def main(ctx):
         elif name == "likelihood":
             Ts = [3, 5, 4] if ctx.quick else [3, 5, 4, 25]
             parts = 1
+        elif name == "fourier":
+            Ts = [3, 4, 5, 8] if ctx.quick else [3, 4, 5, 6, 8, 9, 25]   # 8 and 9 give f*n_freq = 2.5 / 0.5 (rounding ties: skipped, counted)
+            parts = 1
         else:
             Ts = [3, 4, 5] if ctx.quick else [3, 4, 5, 6, 25]
             parts = 1
